@@ -596,7 +596,12 @@ def check_c15(W, mcfg, blob, dcfg, exp):
                     return bad
     # ---- HDF5 round trip
     from cell_type_mapper.utils.output_utils import hdf5_to_blob
-    back = hdf5_to_blob(dcfg['hdf5_result_path'])
+    try:
+        back = hdf5_to_blob(dcfg['hdf5_result_path'])
+    except Exception as e:  # the run succeeded and wrote the file: a reader that cannot read it back is a broken round trip
+        bad.append(('hdf5-unreadable', 'hdf5_to_blob raised %s: %s on the file a successful run wrote'
+                    % (type(e).__name__, str(e)[:160])))
+        return bad
     bres = back.get('results')
     if bres is None or len(bres) != len(res):
         bad.append(('hdf5-rows', 'HDF5 read-back has %r records for %d' % (None if bres is None else len(bres),
